@@ -50,12 +50,13 @@ var genRefused = rapid.Custom(func(t *rapid.T) string {
 		// accepted-looking but with a line break: the pattern's '.' does not cross it
 		return rapid.SampledFrom([]string{"1\n", "a\nb", "0\n0", "+1\n"}).Draw(t, "nl")
 	}
-	return rapid.SampledFrom([]string{"!x", " 1", "\n", "+", "+!", "\x001", "\xff\xfe", "-1", "#", "_", ".", "*", "<", ">", "^", "{{", " "}).Draw(t, "refused")
+	return rapid.SampledFrom([]string{"!x", " 1", "\n", "+", "+!", "\x001", "\xff\xfe", "-1", "#", "_", ".", "*", "<", ">", "^", "{{", " ", "  ", "\t", " \n", "\r\n"}).Draw(t, "refused")
 })
 
 func genC17(t *rapid.T) C17Case {
 	o := fullOpts
 	o.Sloppy = chancePct(t, 10, "sloppy")
+	o.ResetEmpty = true
 	a := GenApp(t, o)
 	c := C17Case{App: a, Inputs: toBS(GenHistory(t, a, HistOpts{MaxLen: 8, Junk: true}))}
 	c.Mode = c17Modes[uniformN(t, len(c17Modes), "mode")]
